@@ -607,6 +607,9 @@ class Interp:
             return INT(v['int'])
         if 'str' in v:
             return STR(v['str'])
+        if v.get('pointee_bytes') is not None and ty['k'] == 'ref' and self.T[ty['to']]['k'] == 'array' and \
+                self.T[self.T[ty['to']]['elem']].get('name') == 'u8':
+            return STR(bytes.fromhex(v['pointee_bytes']).decode('latin-1'))     # byte-string literal
         if v.get('zst'):
             if ty['k'] == 'closure':
                 return AGG('closure:%s|' % ty['key'], 0, ())
@@ -813,6 +816,11 @@ class Interp:
                     return SYM('un', op, a)
                 if op == 'Neg':
                     return INT(-x)
+            if op == 'Not' and a is not None and VAL[a][0] == 'sym' and VAL[a][1] == 'cmp' and self.operand_is_bool(fr, rv['a']):
+                # negation of a comparison over a total order is the complementary comparison
+                comp = {'Lt': 'Ge', 'Le': 'Gt', 'Gt': 'Le', 'Ge': 'Lt', 'Eq': 'Ne', 'Ne': 'Eq'}
+                t = VAL[a]
+                return SYM('cmp', comp[t[2]], t[3], t[4])
             if op == 'PtrMetadata':
                 return SYM('un', 'len', self.resolve(st, a))
             return SYM('un', op, a if a is not None else SYM('undef', 'un'))
